@@ -841,6 +841,12 @@ fn pick_indices(v: &[u128], n: usize, rot: usize) -> Vec<u128> {
         if n >= 3 && v.len() >= 3 {
             r.push(v[v.len() / 2]);
         }
+        // the fixed boundary indices are always taken when they realise this line
+        for special in [0u128, 1, TBOUND - 1, TBOUND, 1u128 << 32, TOP] {
+            if v.contains(&special) && !r.contains(&special) {
+                r.push(special);
+            }
+        }
         r
     } else {
         vec![v[rot % v.len()]]
